@@ -18,7 +18,8 @@ theorem RunOK.rmJ {cfg : Cfg} {s : St} {d : Disk} (h : RunOK cfg s d) (j' : Job)
   · exact fun p hp => r5.1 p (mem_erase.1 hp).1
   · rcases frozenOK_iff.1 r7 with ⟨h1, h2⟩ | ⟨fz, jf, h1, h2, f1, f2, f3, f4, f5, f6⟩
     · exact frozenOK_iff.2 (Or.inl ⟨h1, h2⟩)
-    · exact frozenOK_iff.2 (Or.inr ⟨fz, jf, h1, h2, f1, f2, f3, f4, fun p hp => f5 p (mem_erase.1 hp).1,
+    · exact frozenOK_iff.2 (Or.inr ⟨fz, jf, h1, h2, f1, f2, f3, fun p hp => f4 p (mem_erase.1 hp).1,
+        fun p hp => f5 p (mem_erase.1 hp).1,
         fun hx => absurd hx hnc⟩)
   · exact r8.imp (fun mf hmf => hmf.imp (fun v0 hv0 p hp => hv0 p (mem_erase.1 hp).1))
 
